@@ -165,15 +165,16 @@ class VMaybeNone(V):
 class HSeq:
     """list or 1-D numpy array: length term + meta-level element function."""
 
-    def __init__(self, length, get, numpy=False, etype=None, note=None):
+    def __init__(self, length, get, numpy=False, etype=None, note=None, memfn=None):
         self.len = z3.IntVal(length) if isinstance(length, int) else length
         self.get = get
         self.numpy = numpy
         self.etype = etype
         self.note = note
+        self.memfn = memfn      # optional: key term -> Bool, membership built compositionally (literal / append / concat)
 
     def copy(self):
-        return HSeq(self.len, self.get, self.numpy, self.etype, self.note)
+        return HSeq(self.len, self.get, self.numpy, self.etype, self.note, self.memfn)
 
 
 class H2D:
